@@ -1,1 +1,255 @@
-// hooks for tc_parse (included into the repo crate under cfg(any(kani, glass_easel_verif)))
+// hooks for parse/mod.rs (included under cfg(any(kani, glass_easel_verif)))
+#[allow(unused_imports)]
+use super::*;
+
+/// (line, utf16 column) of the end of `prefix` when counting starts at (0, 0): the specification of ParseState's bookkeeping
+pub fn line_col_of(prefix: &str) -> (u32, u32) {
+    let (mut line, mut col) = (0u32, 0u32);
+    for c in prefix.chars() {
+        if c == '\n' {
+            line += 1;
+            col = 0
+        } else {
+            col += c.len_utf16() as u32
+        }
+    }
+    (line, col)
+}
+
+/// native twin of the K16a harnesses: run primitive `op` from the state "cursor at byte `cur`" and report
+/// (cursor, line, col, expected line, expected col, cursor on a char boundary, cursor >= start)
+pub fn primitive_step(s: &str, cur: usize, op: u8, arg: &str) -> (usize, u32, u32, u32, u32, bool, bool) {
+    let mut ps = ParseState::new("", s, Position::default());
+    let (l, c) = line_col_of(&s[..cur]);
+    ps.cur_index = cur;
+    ps.line = l;
+    ps.utf16_col = c;
+    match op {
+        0 => {
+            ps.next();
+        }
+        1 => {
+            ps.skip_whitespace();
+        }
+        2 => {
+            ps.skip_until_before(arg);
+        }
+        3 => {
+            ps.skip_until_after(arg);
+        }
+        4 => {
+            ps.consume_str(arg);
+        }
+        5 => {
+            ps.next_char_as_str();
+        }
+        6 => {
+            ps.skip_whitespace_with_js_comments();
+        }
+        _ => {
+            let _: Option<()> = ps.try_parse(|ps| {
+                ps.next();
+                ps.skip_whitespace();
+                None
+            });
+        }
+    }
+    let idx = ps.cur_index;
+    let ok_b = s.is_char_boundary(idx);
+    let (el, ec) = if ok_b { line_col_of(&s[..idx]) } else { (0, 0) };
+    (idx, ps.line, ps.utf16_col, el, ec, ok_b, idx >= cur)
+}
+
+#[cfg(kani)]
+mod harness {
+    use super::super::*;
+    use super::line_col_of;
+
+    fn fail_stub(_s: &str, _b: usize, _e: usize) -> ! {
+        panic!("slice_error_fail")
+    }
+
+    const N: usize = 4;
+
+    // arbitrary valid UTF-8 text of <= N bytes and an arbitrary char-boundary cursor with the invariant established
+    fn any_state(buf: &[u8; N]) -> Option<(&str, usize)> {
+        let len: usize = kani::any();
+        kani::assume(len <= N);
+        let s = match std::str::from_utf8(&buf[..len]) {
+            Ok(s) => s,
+            Err(_) => return None,
+        };
+        let cur: usize = kani::any();
+        kani::assume(cur <= len);
+        if !s.is_char_boundary(cur) {
+            return None;
+        }
+        Some((s, cur))
+    }
+    fn state_at<'a>(s: &'a str, cur: usize) -> ParseState<'a> {
+        let mut ps = ParseState::new("", s, Position::default());
+        let (l, c) = line_col_of(&s[..cur]);
+        ps.cur_index = cur;
+        ps.line = l;
+        ps.utf16_col = c;
+        ps
+    }
+    // the position invariant: cursor on a boundary, never moved backwards, (line, col) = recomputation from the text
+    fn check_inv(ps: &ParseState, s: &str, start: usize) {
+        let idx = ps.cur_index;
+        assert!(idx <= s.len());
+        assert!(idx >= start);
+        assert!(s.is_char_boundary(idx));
+        let (l, c) = line_col_of(&s[..idx]);
+        assert!(ps.line == l && ps.utf16_col == c);
+    }
+
+    #[kani::proof]
+    #[kani::unwind(6)]
+    #[kani::stub(core::str::slice_error_fail, fail_stub)]
+    fn k16a_next() {
+        let buf: [u8; N] = kani::any();
+        let Some((s, cur)) = any_state(&buf) else { return };
+        let mut ps = state_at(s, cur);
+        let r = ps.next();
+        check_inv(&ps, s, cur);
+        // progress lemma: next() strictly advances unless the input is ended
+        assert!(r.is_none() == (cur == s.len()));
+        assert!(r.is_none() || ps.cur_index > cur);
+        kani::cover!(r == Some('\n'));
+        kani::cover!(ps.cur_index == cur + 4);
+        std::mem::forget(ps);
+    }
+
+    #[kani::proof]
+    #[kani::unwind(6)]
+    #[kani::stub(core::str::slice_error_fail, fail_stub)]
+    fn k16a_skip_whitespace() {
+        let buf: [u8; N] = kani::any();
+        let Some((s, cur)) = any_state(&buf) else { return };
+        let mut ps = state_at(s, cur);
+        let r = ps.skip_whitespace();
+        check_inv(&ps, s, cur);
+        assert!(r.is_some() == (ps.cur_index > cur));
+        kani::cover!(ps.cur_index == cur + 2);
+        std::mem::forget(ps);
+    }
+
+    #[kani::proof]
+    #[kani::unwind(5)]
+    #[kani::stub(core::str::slice_error_fail, fail_stub)]
+    fn k16a_next_char_as_str() {
+        // 3 bytes (a 4-byte buffer runs out of memory): every 1-, 2- and 3-byte character and their combinations
+        let b3: [u8; 3] = kani::any();
+        let len: usize = kani::any();
+        kani::assume(len <= 3);
+        let Ok(s) = std::str::from_utf8(&b3[..len]) else { return };
+        let cur: usize = kani::any();
+        kani::assume(cur <= len);
+        if !s.is_char_boundary(cur) {
+            return;
+        }
+        let mut ps = state_at(s, cur);
+        let r = ps.next_char_as_str();
+        check_inv(&ps, s, cur);
+        assert!(r.len() == ps.cur_index - cur);
+        assert!((r.len() == 0) == (cur == s.len()));
+        kani::cover!(r.len() == 3);
+        std::mem::forget(ps);
+    }
+
+    #[kani::proof]
+    #[kani::unwind(6)]
+    #[kani::stub(core::str::slice_error_fail, fail_stub)]
+    fn k16a_consume_str() {
+        let buf: [u8; N] = kani::any();
+        let Some((s, cur)) = any_state(&buf) else { return };
+        let mut ps = state_at(s, cur);
+        let which: bool = kani::any();
+        let pat = if which { "\n" } else { "-" };
+        let r = ps.consume_str(pat);
+        check_inv(&ps, s, cur);
+        assert!(r.is_some() == (ps.cur_index == cur + 1));
+        kani::cover!(r.is_some() && which);
+        std::mem::forget(ps);
+    }
+
+    #[kani::proof]
+    #[kani::unwind(6)]
+    #[kani::stub(core::str::slice_error_fail, fail_stub)]
+    fn k16a_try_parse_restores() {
+        let buf: [u8; N] = kani::any();
+        let Some((s, cur)) = any_state(&buf) else { return };
+        let mut ps = state_at(s, cur);
+        let keep: bool = kani::any();
+        let r: Option<()> = ps.try_parse(|ps| {
+            ps.next();
+            if keep {
+                Some(())
+            } else {
+                None
+            }
+        });
+        check_inv(&ps, s, cur);
+        assert!(r.is_some() || ps.cur_index == cur);
+        kani::cover!(!keep && cur < s.len());
+        std::mem::forget(ps);
+    }
+
+    // skip_bytes over a multi-character range (through skip_until_after): "<x><c>-" with x in {'\n', 'a'} and c ANY scalar value
+    // (covers a line break followed by a multi-byte / astral character in one skipped range)
+    #[kani::proof]
+    #[kani::unwind(8)]
+    #[kani::stub(core::str::slice_error_fail, fail_stub)]
+    fn k16a_skip_bytes_range() {
+        let c: char = kani::any();
+        kani::assume(c != '-');
+        let nl: bool = kani::any();
+        let mut buf = [0u8; 6];
+        buf[0] = if nl { b'\n' } else { b'a' };
+        let n = c.encode_utf8(&mut buf[1..5]).len();
+        buf[1 + n] = b'-';
+        let s = unsafe { std::str::from_utf8_unchecked(&buf[..n + 2]) };
+        let mut ps = state_at(s, 0);
+        let r = ps.skip_until_after("-");
+        assert!(r.is_some());
+        assert!(ps.cur_index == s.len());
+        check_inv(&ps, s, 0);
+        kani::cover!(nl && n == 4);
+        kani::cover!(!nl && c == '\n');
+        std::mem::forget(ps);
+    }
+
+    // skip_bytes over a multi-character range, cheaper route: consume_str(<the whole remaining text>) = skip_bytes(len)
+    // text = "<x><c>" with x in {'\n', 'a'} and c ANY scalar value
+    #[kani::proof]
+    #[kani::unwind(8)]
+    #[kani::stub(core::str::slice_error_fail, fail_stub)]
+    fn k16a_skip_bytes_two_chars() {
+        let c: char = kani::any();
+        let nl: bool = kani::any();
+        let mut buf = [0u8; 5];
+        buf[0] = if nl { b'\n' } else { b'a' };
+        let n = c.encode_utf8(&mut buf[1..5]).len();
+        let s = unsafe { std::str::from_utf8_unchecked(&buf[..n + 1]) };
+        let mut ps = state_at(s, 0);
+        let r = ps.consume_str(s);
+        assert!(r.is_some());
+        assert!(ps.cur_index == s.len());
+        check_inv(&ps, s, 0);
+        kani::cover!(nl && n == 4);
+        kani::cover!(!nl && c == '\n');
+        std::mem::forget(ps);
+    }
+
+    // K15c: Position ordering is the lexicographic order on (line, utf16_col)
+    #[kani::proof]
+    fn k15c_position_order() {
+        let a = Position { line: kani::any(), utf16_col: kani::any() };
+        let b = Position { line: kani::any(), utf16_col: kani::any() };
+        let want = (a.line, a.utf16_col).cmp(&(b.line, b.utf16_col));
+        assert!(a.cmp(&b) == want);
+        assert!(a.partial_cmp(&b) == Some(want));
+        assert!((a == b) == (want == std::cmp::Ordering::Equal));
+    }
+}
